@@ -83,6 +83,7 @@ class RaftOracle(object):
         self.G = {}                # pos -> (cmd, idx, term)
         self.Gdec = {}             # pos -> decoded
         self.Gtag = {}             # tag -> pos
+        self.Gterm = {}            # pos -> current term of the node that first reported it committed
         self.states = {1: app.model.INIT}
         self.results = {}
         self.raised = {}
@@ -141,7 +142,10 @@ class RaftOracle(object):
                 log = log_of(node)
                 if len(log):
                     c = node.raftCommitIndex
-                    self._record_commits(host, node, log, v, c, priv(node, 'SyncObj', 'raftState'), node.raftCurrentTerm)
+                    # (role, term) read at a kill instant need not be the pair under which the commit index was
+                    # advanced earlier in this event (a kill between "term := t+1" and "role := follower"), so the
+                    # leader-only rules are not evaluated here: role is passed as unknown
+                    self._record_commits(host, node, log, v, c, -1, node.raftCurrentTerm)
                     v.commit = max(v.commit, c)
             try:
                 v.last_log = [norm(e) for e in log_of(host.node)[:]]
@@ -174,10 +178,17 @@ class RaftOracle(object):
             base = log[0][1]
             last = log[-1][1]
             G = self.G
+            Gterm = self.Gterm
             for p in G:
                 if self.tainted_from is not None and p >= self.tainted_from:
                     continue
                 if p < base:
+                    continue
+                if Gterm.get(p, 0) >= term:
+                    # committed under a leader of this or a later term: a node that wins an older term from
+                    # delayed vote replies is a stale leader, which the statement allows (it speaks of commands
+                    # committed under leaders of EARLIER terms)
+                    self.w.probe('stale_leader_elected_after_newer_commit')
                     continue
                 e = log_entry(log, p) if p <= last else None
                 if e is None or norm(e) != G[p]:
@@ -268,6 +279,7 @@ class RaftOracle(object):
                 g = self.G.get(p)
                 if g is None:
                     self.G[p] = e
+                    self.Gterm[p] = term
                     newly.append(p)
                     self.commits += 1
                     self._index_G(p, e)
@@ -309,7 +321,8 @@ class RaftOracle(object):
         others = []
         for i in members:
             h = w.hosts[i]
-            if h.node is not None and not h.doomed:
+            if h.node is not None and (not h.doomed or h is host):
+                # (a reporter that is being killed at this very storage op still counts with the log it holds)
                 ol = log_of(h.node)
                 others.append((i, ol, ol[0][1], ol[-1][1], None))
             else:
